@@ -314,6 +314,7 @@ func init() {
 func checkRecvLoop(r *R, fn *ssa.Function, fullC, lessC int64) {
 	where := fname(fn)
 	var readCall, parseCall, appendCall, copyCall *ssa.Call
+	var appends []*ssa.Call
 	eachInstr(fn, func(in ssa.Instruction) {
 		c, ok := in.(*ssa.Call)
 		if !ok {
@@ -328,13 +329,38 @@ func checkRecvLoop(r *R, fn *ssa.Function, fullC, lessC int64) {
 		switch builtinName(&c.Call) {
 		case "append":
 			if isByteSlice(c.Type()) {
-				appendCall = c
+				appends = append(appends, c)
 			}
 		case "copy":
 			copyCall = c
 		}
 	})
-	if readCall == nil || parseCall == nil || appendCall == nil || copyCall == nil {
+	// the stream append takes a slice of the Read buffer; a packet may also be copied out with
+	// append(<fresh empty slice>, cur[:L]...) instead of make+copy
+	var pktAppend *ssa.Call
+	for _, a := range appends {
+		sl := sliceOf(a.Call.Args[1])
+		if readCall != nil && sl != nil && strip(sl.X, false) == strip(readCall.Call.Args[0], false) {
+			appendCall = a
+			continue
+		}
+		if parseCall != nil && sl != nil && sl.X == parseCall.Call.Args[0] {
+			switch d := a.Call.Args[0].(type) {
+			case *ssa.MakeSlice:
+				if k, ok := constInt(d.Len); ok && k == 0 {
+					pktAppend = a
+				}
+			case *ssa.Const:
+				if d.Value == nil {
+					pktAppend = a
+				}
+			}
+		}
+	}
+	if appendCall == nil && len(appends) == 1 {
+		appendCall = appends[0]
+	}
+	if readCall == nil || parseCall == nil || appendCall == nil || (copyCall == nil && pktAppend == nil) {
 		r.Undecided(where, "receive loop shape", fn.Pos(), "Read/append/ParsePackage/copy structure not recognised (a restructured receive path needs an idiom update)")
 		return
 	}
@@ -358,10 +384,6 @@ func checkRecvLoop(r *R, fn *ssa.Function, fullC, lessC int64) {
 	r.Check(f1, where, "F1 append exactly the bytes read", appendCall.Pos(), "appends buffer[:n] with n the count of that Read", "what is appended to the stream buffer is not buffer[:n] with n the count returned by the same Read (stale or missing bytes enter the stream)")
 
 	// F2: fresh copy of cur[:L], remainder cur[L:], same L, under status == Full
-	var pkt *ssa.MakeSlice
-	if ms, ok := copyCall.Call.Args[0].(*ssa.MakeSlice); ok {
-		pkt = ms
-	}
 	underFull := func(b *ssa.BasicBlock) bool {
 		for _, f := range facts(b) {
 			if c, ok := normFact(f); ok && c.Op == token.EQL && c.X == status {
@@ -372,30 +394,44 @@ func checkRecvLoop(r *R, fn *ssa.Function, fullC, lessC int64) {
 		}
 		return false
 	}
-	f2a := pkt != nil && L != nil && strip(pkt.Len, false) == L && underFull(pkt.Block())
-	r.Check(f2a, where, "F2 packet = make([]byte, L) on the Full branch", copyCall.Pos(), "fresh slice of the length ParsePackage returned, on status == PackageFull", "the packet is not a fresh slice of exactly the length returned by ParsePackage on the PackageFull branch")
-	src := sliceOf(copyCall.Call.Args[1])
-	f2b := src != nil && src.X == cur && zeroOrNil(src.Low) && src.High != nil && strip(src.High, false) == L
-	r.Check(f2b, where, "F2 copy source is cur[:L]", copyCall.Pos(), "copy(pkt, cur[:L]) from the buffer that was parsed", "the packet is not copied from cur[:L] of the parsed buffer with the same L")
+	var pkt ssa.Value // the fresh packet slice
+	var pktPos token.Pos
+	var f2a, f2b bool
+	if pktAppend != nil {
+		pkt, pktPos = pktAppend, pktAppend.Pos()
+		src := sliceOf(pktAppend.Call.Args[1])
+		f2a = L != nil && underFull(pktAppend.Block())
+		f2b = src != nil && src.X == cur && zeroOrNil(src.Low) && src.High != nil && strip(src.High, false) == L
+	} else {
+		pktPos = copyCall.Pos()
+		if ms, ok := copyCall.Call.Args[0].(*ssa.MakeSlice); ok {
+			pkt = ms
+			f2a = L != nil && strip(ms.Len, false) == L && underFull(ms.Block())
+		}
+		src := sliceOf(copyCall.Call.Args[1])
+		f2b = src != nil && src.X == cur && zeroOrNil(src.Low) && src.High != nil && strip(src.High, false) == L
+	}
+	r.Check(f2a, where, "F2 packet = make([]byte, L) on the Full branch", pktPos, "fresh slice of the length ParsePackage returned, on status == PackageFull", "the packet is not a fresh slice of exactly the length returned by ParsePackage on the PackageFull branch")
+	r.Check(f2b, where, "F2 copy source is cur[:L]", pktPos, "copy(pkt, cur[:L]) from the buffer that was parsed", "the packet is not copied from cur[:L] of the parsed buffer with the same L")
 	var rem *ssa.Slice
 	eachInstr(fn, func(in ssa.Instruction) {
 		if s, ok := in.(*ssa.Slice); ok && s.X == cur && s.High == nil && s.Low != nil && strip(s.Low, false) == L && underFull(s.Block()) {
 			rem = s
 		}
 	})
-	r.Check(rem != nil, where, "F2 remainder is cur[L:]", copyCall.Pos(), "buffer advances by exactly L", "after a packet is taken the buffer is not advanced to cur[L:] with the same L (bytes are lost or duplicated)")
+	r.Check(rem != nil, where, "F2 remainder is cur[L:]", pktPos, "buffer advances by exactly L", "after a packet is taken the buffer is not advanced to cur[L:] with the same L (bytes are lost or duplicated)")
 	// handed on: some call/go after the copy takes pkt (and no call takes a slice of cur)
 	handed := false
 	if pkt != nil {
 		for _, ref := range *pkt.Referrers() {
-			if ci, ok := ref.(ssa.CallInstruction); ok && ci != ssa.CallInstruction(copyCall) {
+			if ci, ok := ref.(ssa.CallInstruction); ok && (copyCall == nil || ci != ssa.CallInstruction(copyCall)) {
 				if builtinName(ci.Common()) == "" {
 					handed = true
 				}
 			}
 		}
 	}
-	r.Check(handed, where, "F2 the copy is handed to the protocol", copyCall.Pos(), "the fresh packet slice is passed on", "the fresh packet is never passed on (an alias of the stream buffer would be overwritten by later appends)")
+	r.Check(handed, where, "F2 the copy is handed to the protocol", pktPos, "the fresh packet slice is passed on", "the fresh packet is never passed on (an alias of the stream buffer would be overwritten by later appends)")
 
 	// F3/F4: every value carried into the next iteration is the buffer itself, the appended buffer,
 	// the remainder, or nil only where the remainder is known to be empty
@@ -516,10 +552,9 @@ func checkRecvLoop(r *R, fn *ssa.Function, fullC, lessC int64) {
 	}
 	okErr := true
 	for _, b := range errBlocks {
-		first := b.Instrs[0]
-		again := reachAvoiding(first, func(in ssa.Instruction) bool {
+		again := reachCorrelated(b, func(in ssa.Instruction) bool {
 			return in == ssa.Instruction(readCall) || in == ssa.Instruction(parseCall)
-		}, nil)
+		})
 		if again != nil {
 			okErr = false
 		}
@@ -645,4 +680,87 @@ func splitPaths(vals []ssa.Value, at *ssa.BasicBlock) []retPath {
 	}
 	expand(ret, vals, at, nil, 0)
 	return out
+}
+
+// reachCorrelated: is there a path from the start of block b to an instruction satisfying target?
+// Phis met on the way are resolved by the edge the path actually took, and a branch on such a
+// resolved boolean constant (or on its negation) is followed only in the direction the constant
+// dictates — so `ok = false` set on an error path and tested after the merge (`if !ok { return }`)
+// does not lead back into the loop.
+func reachCorrelated(b *ssa.BasicBlock, target func(ssa.Instruction) bool) ssa.Instruction {
+	type state struct {
+		b    *ssa.BasicBlock
+		from *ssa.BasicBlock
+	}
+	seen := map[state]bool{}
+	var walk func(b, from *ssa.BasicBlock, env map[ssa.Value]bool, depth int) ssa.Instruction
+	walk = func(b, from *ssa.BasicBlock, env map[ssa.Value]bool, depth int) ssa.Instruction {
+		if depth > 200 {
+			return nil
+		}
+		st := state{b, from}
+		if seen[st] {
+			return nil
+		}
+		seen[st] = true
+		ne := env
+		copied := false
+		for _, in := range b.Instrs {
+			if phi, ok := in.(*ssa.Phi); ok && from != nil {
+				for i, p := range b.Preds {
+					if p != from {
+						continue
+					}
+					var v bool
+					known := false
+					if cb, ok := constBool(phi.Edges[i]); ok {
+						v, known = cb, true
+					} else if ev, ok := env[phi.Edges[i]]; ok {
+						v, known = ev, true
+					}
+					if !copied {
+						ne = map[ssa.Value]bool{}
+						for k, x := range env {
+							ne[k] = x
+						}
+						copied = true
+					}
+					if known {
+						ne[phi] = v
+					} else {
+						delete(ne, phi)
+					}
+				}
+				continue
+			}
+			if target(in) {
+				return in
+			}
+		}
+		succs := b.Succs
+		if iff, ok := b.Instrs[len(b.Instrs)-1].(*ssa.If); ok && len(b.Succs) == 2 {
+			c, neg := iff.Cond, false
+			for {
+				if u, ok := c.(*ssa.UnOp); ok && u.Op == token.NOT {
+					c, neg = u.X, !neg
+					continue
+				}
+				break
+			}
+			if v, ok := ne[c]; ok {
+				if v != neg {
+					succs = b.Succs[:1]
+				} else {
+					succs = b.Succs[1:2]
+				}
+			}
+		}
+		for _, s := range succs {
+			if r := walk(s, b, ne, depth+1); r != nil {
+				return r
+			}
+		}
+		return nil
+	}
+	return walk(b, nil, map[ssa.Value]bool{}, 0)
 }
